@@ -89,4 +89,13 @@ def runMwLoop (l : Loop) (name : String) (mws : List (Mw α)) (h : α) : Option 
 def runDecLoop (l : Loop) (decs : List (α → α)) (x : α) : Option α :=
   runLoop l (fun c => match c with | .tt => some (fun _ => true) | _ => none) (fun f a => f a) decs x
 
+/-- `decorateHandlerPublisher` as a whole: `nilGuard` = the function begins with `if h.publisher == nil { return nil }`;
+    without the guard the loop runs on the nil publisher too (the decorators are handed `nil`: here `onNil`, whatever a
+    decorator makes of it) -/
+def runPubDecorate (nilGuard : Bool) (l : Loop) (decs : List (α → α)) (onNil : Option α) : Option α → Option (Option α)
+  | some pub => (runDecLoop l decs pub).map some
+  | none => if nilGuard then some none else match onNil with
+    | some x => (runDecLoop l decs x).map some
+    | none => none
+
 end Wm.ChainGo
